@@ -8,6 +8,7 @@ transactron/utils/amaranth_ext/coding.py.
 
 from __future__ import annotations
 
+import os
 import warnings
 
 from ..common import Check
@@ -246,6 +247,8 @@ def monitor(case: Case, out: list[str]):
             if s == 0:
                 if d["dflt"]:
                     exp = int(op["df"])
+                elif comp == "mux":
+                    continue  # one_hot_mux docstring: without default the output is undefined when nothing is selected
                 elif w == 1:
                     exp = data[0]  # OneHotMux docstring: "the only value if inputs_count == 1"
                 else:
@@ -324,10 +327,10 @@ def gen_mpe(ctx: Check) -> list[Case]:
     for w in range(1, ctx.pick(6, 8) + 1):
         for k in range(1, ctx.pick(3, 4) + 1):
             cases += _split_cases("mpe", f"w={w} k={k}", [f"in x={x}" for x in range(1 << w)], "exhaustive", w=w, k=k)
-    for w in ctx.pick([7, 9, 12, 16, 24, 33, 64], [9, 10, 12, 13, 16, 17, 24, 31, 32, 33, 48, 63, 64]):
-        for k in ctx.pick([1, 2, 3, 5], [1, 2, 3, 4, 5, 8]):
-            xs = [0, (1 << w) - 1, 1 << (w - 1), 1] + [_rand_x(rng, w) for _ in range(ctx.pick(40, 200))]
-            cases.append(_case("mpe", f"w={w} k={k}", [f"in x={x}" for x in xs], "random", w=w, k=k))
+    big = [(w, k) for w in [9, 10, 12, 13, 16, 17, 24, 31, 32, 33, 48, 63, 64] for k in [1, 2, 3, 4, 5, 8]]
+    for w, k in ctx.pick([(7, 2), (7, 4), (9, 1), (12, 3), (16, 5), (24, 2), (33, 3), (33, 1), (64, 4), (64, 2)], big):
+        xs = [0, (1 << w) - 1, 1 << (w - 1), 1] + [_rand_x(rng, w) for _ in range(ctx.pick(60, 200))]
+        cases.append(_case("mpe", f"w={w} k={k}", [f"in x={x}" for x in xs], "random", w=w, k=k))
     return cases
 
 
@@ -336,19 +339,21 @@ def gen_ring(ctx: Check) -> list[Case]:
     cases = []
     for w in range(1, ctx.pick(5, 6) + 1):
         fl = 1 << _bits_for_range(w)  # every value the `first`/`last` signals can hold (>= w: outside the property)
-        for k in range(1, ctx.pick(3, 3) + 1):
+        for k in range(1, 4):
+            if ctx.quick and w == 5 and k != 2:
+                continue  # quick tier: width 5 (2048 valuations) with one output count only
             ops = [f"in x={x} f={f} l={l}" for x in range(1 << w) for f in range(fl) for l in range(fl)]
             cases += _split_cases("ring", f"w={w} k={k}", ops, "exhaustive", w=w, k=k)
-    for w in ctx.pick([6, 7, 8, 12, 16, 31, 64], [7, 8, 9, 12, 15, 16, 17, 31, 32, 33, 64]):
-        for k in ctx.pick([1, 2, 4], [1, 2, 3, 4, 6]):
-            ops = []
-            for _ in range(ctx.pick(80, 400)):
-                x = _rand_x(rng, w) if rng.random() < 0.7 else (1 << w) - 1
-                f, l = rng.randrange(w), rng.randrange(w)
-                if rng.random() < 0.15:
-                    l = f
-                ops.append(f"in x={x} f={f} l={l}")
-            cases.append(_case("ring", f"w={w} k={k}", ops, "random", w=w, k=k))
+    big = [(w, k) for w in [7, 8, 9, 12, 15, 16, 17, 31, 32, 33, 64] for k in [1, 2, 3, 4, 6]]
+    for w, k in ctx.pick([(6, 2), (7, 1), (8, 4), (12, 2), (16, 1), (31, 4), (33, 2), (64, 1), (64, 3)], big):
+        ops = []
+        for _ in range(ctx.pick(100, 400)):
+            x = _rand_x(rng, w) if rng.random() < 0.7 else (1 << w) - 1
+            f, l = rng.randrange(w), rng.randrange(w)
+            if rng.random() < 0.15:
+                l = f
+            ops.append(f"in x={x} f={f} l={l}")
+        cases.append(_case("ring", f"w={w} k={k}", ops, "random", w=w, k=k))
     return cases
 
 
@@ -394,7 +399,7 @@ def gen_mux(ctx: Check) -> list[Case]:
                     sels = [s for s in range(1 << n) for _ in range(2 if n <= 4 else 1)]
                     cases.append(_case(comp, f"n={n} prio={prio} dflt={dflt}", ops_for(n, dw, dflt, sels), "exhaustive",
                                        w=n, dw=dw, prio=prio, dflt=dflt))
-                for n in ctx.pick([9, 16, 33], [9, 12, 16, 17, 32, 33, 64]):
+                for n in ctx.pick([12, 33], [9, 12, 16, 17, 32, 33, 64]):
                     dw = rng.choice([8, 16, 32])
                     sels = [0, 1, 1 << (n - 1)] + [_rand_x(rng, n) for _ in range(ctx.pick(40, 200))]
                     cases.append(_case(comp, f"n={n} prio={prio} dflt={dflt}", ops_for(n, dw, dflt, sels), "random",
@@ -410,8 +415,8 @@ def gen_coding(ctx: Check) -> tuple[list[Case], list[Case]]:
     """(cases checked by the monitor, cases of the excluded region: PriorityEncoder with zero input, width not 2^k)"""
     rng = ctx.rng("coding")
     cases, excluded = [], []
-    small = range(1, ctx.pick(7, 9) + 1)
-    big = ctx.pick([12, 16, 33, 64], [10, 12, 16, 17, 31, 32, 33, 63, 64])
+    small = range(1, ctx.pick(6, 9) + 1)
+    big = ctx.pick([12, 33, 64], [10, 12, 16, 17, 31, 32, 33, 63, 64])
     for w in [*small, *big]:
         ex = w in small
         tag = "exhaustive" if ex else "random"
@@ -490,6 +495,19 @@ def _monitor_strict(case, out):
     return monitor(case, out)
 
 
+def _corpus(pid: str) -> list[Case]:
+    """directed cases / minimised past failures from corpus/<pid>/*.json, run first"""
+    import json
+
+    from ..common import CORPUS
+
+    out = []
+    for f in sorted((CORPUS / pid).glob("*.json")):
+        b = json.loads(f.read_text())
+        out.append(Case(b["cfg"], list(b["ops"]), b.get("desc", {}), "corpus"))
+    return out
+
+
 def run(ctx: Check):
     ctx.rule = ("case = (component class, width / output count / priority / default configuration, list of input "
                 "valuations); every input valuation is one evaluation; non-trivial = the list contains inputs on both "
@@ -498,13 +516,23 @@ def run(ctx: Check):
     ctx.proof_stage()
     ctx.replay_findings(replay_witness)
     procs = ctx.pick(4, 8)
-    groups = [("mpe", gen_mpe(ctx)), ("ring", gen_ring(ctx)), ("ssn", gen_ssn(ctx)), ("mux", gen_mux(ctx))]
+    groups = [("corpus", _corpus("C38")), ("mpe", gen_mpe(ctx)), ("ring", gen_ring(ctx)), ("ssn", gen_ssn(ctx)), ("mux", gen_mux(ctx))]
     coding, excluded = gen_coding(ctx)
     groups.append(("coding", coding))
+    only = os.environ.get("TXV_C38_GROUPS")  # debugging aid (mutation testing): restrict to some groups
+    if only:
+        groups = [g for g in groups if g[0] in only.split(",")]
+        ctx.note(f"restricted to groups {only}")
     for name, cases in groups:
         for c in cases:
             ctx.count(f"inputs_{c.desc['comp']}", len(c.ops))
-        lockstep(ctx, name, "C38", cases, impl, monitor, more_cases, nontrivial, procs=procs)
+    # two correspondences (one Lean driver start each): the elaboratables/functions models and the coding models
+    elab = [c for name, cases in groups if name != "coding" for c in cases]
+    cod = [c for name, cases in groups if name == "coding" for c in cases]
+    if elab:
+        lockstep(ctx, "encoders-mux-network", "C38", elab, impl, monitor, more_cases, nontrivial, procs=procs, max_reports=4)
+    if cod:
+        lockstep(ctx, "coding", "C38", cod, impl, monitor, more_cases, nontrivial, procs=procs, max_reports=4)
     # excluded region (proposed finding F-b3-1): model and code must still agree there; no property claim
     lockstep(ctx, "coding-excluded-region", "C38", excluded, impl, None, None, lambda c, o: False, procs=1)
     ctx.count("inputs_penc_zero_nonpow2_model_vs_code_only", len(excluded))
